@@ -41,6 +41,8 @@ POOL = [
     ':checked', ':in-range', ':out-of-range', ':disabled', ':enabled', ':required', ':read-write', ':placeholder-shown',
     ':empty', ':first-child', ':root', 'p:-soup-contains("x")', ':is(:default, :indeterminate, :lang(""))',
     'form:has(:indeterminate) :default', ':defined', ':link', 'input', '*', 'fieldset *', ':last-of-type',
+    # both directions asked inside one call (an element whose direction is undetermined is neither)
+    ':dir(ltr), :dir(rtl)', ':dir(rtl), :dir(ltr)', ':not(:dir(ltr)):not(:dir(rtl))', 'p:dir(ltr), div:dir(rtl), span:dir(rtl)',
     # several root candidates in one call: the document element and the top-level nodes of every iframe document
     ':root', ':not(:root)', 'iframe :root', ':root > *', 'p:root, div:root, html:root', 'iframe > :root:first-child',
     # plain attribute readers (they normalise whatever a program stored on the element)
